@@ -155,6 +155,16 @@ Proof.
   - intro k. apply (first_some_nearest (fun s => assoc k (s_keys s))).
 Qed.
 
+(* the section's own setting wins whatever its value is (in particular the falsy code 0) *)
+Theorem own_setting_wins_proof e name c cfg k v :
+  collapse e name = inr (c, cfg) ->
+  assoc k (s_keys (head_sec (root e name))) = Some v -> cfg k = Some v.
+Proof.
+  intros H A. apply collapse_inv in H as [order [B [_ ->]]].
+  apply bfs_Qrel in B as [o [-> Q]]. cbn [app].
+  inversion Q as [|x q o' Q' E1 E2]; subst. cbn [first_some]. rewrite A. reflexivity.
+Qed.
+
 (* ------------------------------------------------------------------ errors *)
 Definition resolves (e : env) (z : node) : Prop :=
   forall i, In i (inherits (snd z)) ->
@@ -507,6 +517,11 @@ Local Open Scope bs_scope.
 Example ex_tree :
   run_collapse "a,bc,0-,w01;b,d,--,x02y03;c,,--,x04z05;d,,--,y06z07|b,b,--,y08@abcd"
   = VT "c001040805|Ec|Ec|Ec".
+Proof. vm_compute. reflexivity. Qed.
+(* value code 00 (the falsy value of the key's type) set nearer shadows truthy values set farther:
+   a's own w00 and z00, and b's later-source x00 before the earlier b's x02 *)
+Example ex_falsy_nearest :
+  run_collapse "a,b,0-,w00z00;b,,--,w07x02y01z08|b,b,--,x00@a" = VT "c000000100".
 Proof. vm_compute. reflexivity. Qed.
 Example ex_errors :
   run_collapse "a,b,0-,;b,a,--,;c,x,0-,;d,d,0-,;e,,0t,;f,,--,@abcdefg"
